@@ -33,7 +33,10 @@ RULE = (
     "on the deadline of the addressed request); one server-sent WishlistInterval (1..3 s, arriving on or 2^-10 s "
     "off the grid; starts the wishlist rounds, whose requests are learnt from SearchRequestSentEvent); race = a "
     "reply for a live request arrives on the next grid instant and, once its bytes have been delivered, "
-    "remove_request for that request is called k = 0..8 loop iterations later within the same virtual instant; "
+    "remove_request for that request is called k = 0..8 loop iterations later within the same virtual instant; a "
+    "search may be removed while its SearchRequestSentEvent is being delivered: by a plain listener, by an async "
+    "listener after 1..6 loop iterations or one grid step of virtual time, or by another task while such a slow "
+    "listener is awaited (deadline = call time + timeout in force, whatever the listeners do); "
     "scheduled replies optionally travel over a peer connection established beforehand (so that the reply is handled "
     "in the loop iteration in which a timer of the same instant runs); "
     "change of request_timeout; advance(n*0.5 s); advance to -1/0/+1 grid steps around the deadline of a live "
@@ -860,7 +863,9 @@ def _run_search(case) -> CaseResult:
     for e in loop_errors:
         kind = f'C18/loop-error:{e["exc_type"]}'
         if e['exc_type'] == 'KeyError' and any(
-                r.removed_at is not None and r.deadline is not None and abs(e['time'] - r.deadline) <= EPS
+                r.removed_at is not None and e['time'] >= r.removed_at - EPS and (
+                    (r.deadline is not None and abs(e['time'] - r.deadline) <= EPS)
+                    or e['exception'] == f'KeyError({r.ticket})')
                 for r in reqs):
             kind = STALE_TIMER_KIND
         elif e['exc_type'] == 'KeyError' and any(
